@@ -320,7 +320,62 @@ static void polys(bool thorough)
             }
         }
     }
-    R.part(std::string("polynomial evaluation (" RNAME "): every coefficient vector of length 0..") + std::to_string(maxn) + " over {-2,0,1,3} x x in {0,+-1,+-1/2,2,10,-3}: eval/eval_ (low order first), evar/evar_ on the reversed vector, swap is the reversal and an involution", n, nt);
+    // longer vectors (an implementation may treat them by a different kernel): every vector with one or two non-zero coefficients
+    // from {1,-2,3}, the all-ones and the alternating vector, lengths up to 24 (40)
+    {
+        int maxl = thorough ? 40 : 24;
+        static const double NZ[3] = {1, -2, 3};
+        for (int len = maxn + 1; len <= maxl; ++len)
+        {
+            for (int i = -2; i < len; ++i)
+            {
+                for (int j = i < 0 ? len - 1 : i; j < len; ++j)
+                {
+                    for (int vi = 0; vi < (i < 0 ? 1 : 3); ++vi)
+                    {
+                        for (int vj = 0; vj < (i < 0 || j == i ? 1 : 3); ++vj)
+                        {
+                            if (!R.shard.mine(item++)) { continue; }
+                            a_real a[40], b[40], s2[42];
+                            for (int k = 0; k < len; ++k) { a[k] = i == -2 ? 1 : i == -1 ? (k & 1 ? -1 : 1) : 0; }
+                            if (i >= 0) { a[j] = (a_real)NZ[vj]; a[i] = (a_real)NZ[vi]; }
+                            for (int k = 0; k < len; ++k) { b[k] = a[len - 1 - k]; }
+                            std::string in = "{\"n\":" + std::to_string(len) + ",\"nonzero\":[" + std::to_string(i) + "," + std::to_string(j) + "],\"values\":[" + num(NZ[vi]) + "," + num(NZ[vj]) + "]}";
+                            s2[0] = (a_real)-777; s2[len + 1] = (a_real)-777;
+                            memcpy(s2 + 1, a, sizeof(a_real) * (size_t)len);
+                            a_poly_swap(s2 + 1, (a_size)len);
+                            bool rev_ok = same_vec(s2 + 1, b, len);
+                            a_poly_swap_(s2 + 1, s2 + 1 + len);
+                            bool inv_ok = same_vec(s2 + 1, a, len) && s2[0] == (a_real)-777 && s2[len + 1] == (a_real)-777;
+                            ++n;
+                            if (!rev_ok) { R.viol("poly_swap|reversal|long", "a_poly_swap does not reverse the coefficient order of " + std::to_string(len) + " coefficients", in); }
+                            else if (!inv_ok) { R.viol("poly_swap|involution|long", "a_poly_swap then a_poly_swap_ does not restore the " + std::to_string(len) + " coefficients (or wrote outside them)", in); }
+                            for (double xd : X)
+                            {
+                                a_real x = (a_real)xd;
+                                long double want = 0, mag = 0;
+                                for (int k = len - 1; k >= 0; --k) { want = want * (long double)x + (long double)a[k]; mag = mag * fabsl((long double)x) + fabsl((long double)a[k]); }
+                                if (!(mag < (EPS == (double)FLT_EPSILON ? 1e30L : 1e300L))) { continue; }
+                                a_real g[4] = {a_poly_eval(a, (a_size)len, x), a_poly_eval_(a, a + len, x), a_poly_evar(b, (a_size)len, x), a_poly_evar_(b, b + len, x)};
+                                static const char *FN[4] = {"poly_eval", "poly_eval_", "poly_evar", "poly_evar_"};
+                                n += 4; nt += 4;
+                                double tol = 4 * len * EPS * (double)mag;
+                                for (int f = 0; f < 4; ++f)
+                                {
+                                    if (!(std::fabs((double)((long double)g[f] - want)) <= tol))
+                                    {
+                                        R.viol(std::string(FN[f]) + "|horner|long", std::string("a_") + FN[f] + " of " + std::to_string(len) + " coefficients at x=" + num(xd) + " is " + num((double)g[f]) + ", Horner gives " + num((double)want), in);
+                                        break;
+                                    }
+                                }
+                            }
+                        }
+                    }
+                }
+            }
+        }
+    }
+    R.part(std::string("polynomial evaluation (" RNAME "): every coefficient vector of length 0..") + std::to_string(maxn) + " over {-2,0,1,3} x x in {0,+-1,+-1/2,2,10,-3}, and for lengths up to " + std::to_string(thorough ? 40 : 24) + " every vector with one or two non-zero coefficients from {1,-2,3}, the all-ones and the alternating vector: eval/eval_ (low order first), evar/evar_ on the reversed vector, swap is the reversal and an involution", n, nt);
     R.sample("{\"coefficients\":[1,-2,3],\"x\":2,\"eval\":9,\"evar_of_reversed\":9}");
 }
 
